@@ -20,6 +20,8 @@ Fault kinds (decided per exchange by `fault_fn(index, apdu)`):
 """
 from ledgerblue.ledgerWrapper import wrapCommandAPDU, unwrapResponseAPDU
 
+from sim.kernel import check_foreign as _check_foreign
+
 CHANNEL = 0x0101
 LEDGER_VID = 0x2C97
 
@@ -52,6 +54,7 @@ class HidLink:
 
     # -- seam helpers
     def _seam(self):
+        _check_foreign()
         if self.crash_check:
             self.crash_check()
 
